@@ -80,7 +80,7 @@ Next == /\ l <= Len(Tr.calls)
            IF c.outcome # "ret" THEN Ck("fault.atomic", c.values = c.values_before) /\ Ck("batch.no_exception", c.outcome # "err" \/ Len(c.rows) = 0)
            ELSE IF Tr.cls = "interval" THEN IntervalCall(c)
            \* every BatchSage entry point computes an explanation of the data it was given (model and loss are evaluated)
-           ELSE Ck("batch.explains", Len(c.rows) > 0 => (c.nmodel > 0 /\ c.nloss > 0)) /\ (c.recomputed => Explained(c))
+           ELSE Ck("batch.return_is_values", c.ret_ok) /\ Ck("batch.explains", Len(c.rows) > 0 => (c.nmodel > 0 /\ c.nloss > 0)) /\ (c.recomputed => Explained(c))
         /\ l' = l + 1 /\ UNCHANGED tid
 Spec == Init /\ [][Next]_vars
 =================================================================================
